@@ -1,173 +1,140 @@
 import DustVerif.Proofs.TreeSafe
+import DustVerif.Proofs.TreeTopics
+import DustVerif.Model.TreeOld
 /-! Property C35: entity handles (and GUIDs) of simultaneously live entities are pairwise distinct, and creating
-    an entity never panics the participant.  Model: `Model/Tree.lean` (counters of participant_entity.rs:60-63,
-    participant_methods.rs:70,160,272,392, publisher_methods.rs:90, subscriber_methods.rs:122 with their widths).
+    an entity never panics the participant.  Model: `Model/Tree.lean` = the code WITH fixes/D40.patch (every counter
+    of participant_entity.rs:60-63 / domain_participant_factory.rs:374 is incremented with `checked_add`; a creation
+    that finds its counter exhausted returns OutOfResources before anything is created or changed).
 
-    As the code is, the property FAILS at the counter rails (D40): in the debug profile the `+= 1` of the 256th
-    publisher/subscriber (65 536th topic/writer/reader) of a participant panics the worker; in the release
-    profile the counter wraps and the 257th publisher gets the handle of the first.  What IS true is proved
-    below; the rest is the counter-example theorems and the known finding `creation-count-reached-counter-width`. -/
+    With the patch the property holds for ALL histories, in both build profiles (`C35_unique`, `C35_no_panic`,
+    `C35_no_panic_history`).  The behaviour before the patch (`Model/TreeOld.lean`: the 256th publisher panics the
+    worker in a debug build, the 257th gets the handle of the first in a release build — D40) is kept as
+    regression witnesses (`…_counterexample`). -/
 namespace DustVerif.Tree
 
-/-- C35 (uniqueness, partial — both profiles): after ANY history of operations on a fresh factory, if no counter has
-    wrapped (at most 256 publishers and 256 subscribers, 65 536 topics+content-filtered topics, writers, readers
-    ever created per participant, at most 2^32 participants), all live entities — participants, publishers,
-    subscribers, topics, writers, readers of all participants — have pairwise distinct instance handles
-    (the GUID of a writer/reader is the same 16 bytes).  Excluded: histories that drive a counter past its width. -/
-theorem C35_unique_partial (pr : Profile) (ops : List Op) (hb : Bounded (run (St.init pr) ops)) :
-    (allHandles (run (St.init pr) ops)).Nodup :=
-  handles_nodup (good_run (good_init pr) ops).1 hb
+/-- C35 (uniqueness): after ANY history of operations on a fresh factory — any number of creations and deletions,
+    any profile — all live participants, publishers, subscribers, topics, writers and readers have pairwise
+    distinct instance handles (the GUID of a writer/reader is the same 16 bytes). -/
+theorem C35_unique (pr : Profile) (ops : List Op) : (allHandles (run (St.init pr) ops)).Nodup :=
+  let g := good_run (good_init pr) ops
+  handles_nodup g.1 g.2.bounded
 
-/-- C35 (uniqueness, debug profile — full for the per-participant counters): with overflow checks on, EVERY
-    history keeps all live handles distinct (a counter never wraps because the increment that would wrap panics
-    instead).  The only hypothesis left is about the factory's `AtomicU32` (`fetch_add` wraps silently). -/
-theorem C35_unique_debug (ops : List Op) (hn : (run (St.init .debug) ops).nextPart ≤ U32) :
-    (allHandles (run (St.init .debug) ops)).Nodup := by
-  have hg := good_run (good_init .debug) ops
-  have hp : (run (St.init .debug) ops).profile = .debug := by rw [prof_run]; rfl
-  exact handles_nodup hg.1 (hg.2.bounded hp hn)
-
-/-- C35 (no panic, one step, partial): in ANY state (reachable or not) in which every counter of every participant
-    is below the last value of its field, no operation of the entity tree — creation, deletion, enable, probe —
-    panics or kills the worker.  Excluded: the creation at the rail (counter = 255 / 65 535), which does panic. -/
-theorem C35_no_panic_partial (s : St) (op : Op) (ht : isTreeOp op = true) (h : RailFree s 1) :
+/-- C35 (no panic, one step): from ANY state, no operation of the entity tree — creation, deletion, enable,
+    get_qos — panics or kills the worker. -/
+theorem C35_no_panic (s : St) (op : Op) (ht : isTreeOp op = true) :
     (step s op).2 ≠ .panic ∧ (step s op).1.dead = s.dead :=
-  let r := safe_step (k := 0) h op ht
-  ⟨r.2.2, r.2.1⟩
+  let r := safe_step s op ht
+  ⟨r.2, r.1⟩
 
-/-- C35 (no panic, histories, partial): a history of at most 255 tree operations on a fresh factory never panics,
-    whatever it creates and deletes (each operation moves each counter by at most one). -/
-theorem C35_no_panic_history_partial (pr : Profile) (ops : List Op) (ht : ∀ op ∈ ops, isTreeOp op = true)
-    (hl : ops.length ≤ 255) :
+/-- C35 (no panic, histories): no history of tree operations on a fresh factory, however long, ever panics. -/
+theorem C35_no_panic_history (pr : Profile) (ops : List Op) (ht : ∀ op ∈ ops, isTreeOp op = true) :
     (run (St.init pr) ops).dead = false ∧ ∀ r ∈ outs (St.init pr) ops, r ≠ .panic := by
-  suffices h : ∀ (l : List Op) (s : St) (k : Nat), s.dead = false → RailFree s k → l.length ≤ k →
-      (∀ op ∈ l, isTreeOp op = true) → (run s l).dead = false ∧ ∀ r ∈ outs s l, r ≠ .panic by
-    exact h ops (St.init pr) 255 rfl (by intro u; simp [St.init, zeroMap]) hl ht
+  suffices h : ∀ (l : List Op) (s : St), s.dead = false → (∀ op ∈ l, isTreeOp op = true) →
+      (run s l).dead = false ∧ ∀ r ∈ outs s l, r ≠ .panic by
+    exact h ops (St.init pr) rfl ht
   intro l
   induction l with
-  | nil => intro s k hd _ _ _; exact ⟨hd, by simp [outs]⟩
+  | nil => intro s hd _; exact ⟨hd, by simp [outs]⟩
   | cons op l ih =>
-    intro s k hd hr hlen hto
-    cases k with
-    | zero => simp at hlen
-    | succ k =>
-      have hs := safe_step hr op (hto op List.mem_cons_self)
-      have hstep : stepD s op = step s op := by unfold stepD; simp [hd]
-      have := ih (step s op).1 k (by rw [hs.2.1]; exact hd) hs.1 (by simp at hlen; omega)
-        (fun o ho => hto o (List.mem_cons_of_mem _ ho))
-      refine ⟨by show (run (stepD s op).1 l).dead = false; rw [hstep]; exact this.1, ?_⟩
-      intro r hr'
-      simp only [outs, List.mem_cons] at hr'
-      rcases hr' with h | h
-      · rw [h, hstep]; exact hs.2.2
-      · rw [hstep] at h; exact this.2 r h
+    intro s hd hto
+    have hs := safe_step s op (hto op List.mem_cons_self)
+    have hstep : stepD s op = step s op := by unfold stepD; simp [hd]
+    have := ih (step s op).1 (by rw [hs.1]; exact hd) (fun o ho => hto o (List.mem_cons_of_mem _ ho))
+    refine ⟨by show (run (stepD s op).1 l).dead = false; rw [hstep]; exact this.1, ?_⟩
+    intro r hr'
+    simp only [outs, List.mem_cons] at hr'
+    rcases hr' with h | h
+    · rw [h, hstep]; exact hs.2
+    · rw [hstep] at h; exact this.2 r h
 
-/-- C35 (release profile): with wrapping arithmetic no creation call panics, in any state (the price is paid in
-    uniqueness, see `C35_unique_counterexample`) -/
-theorem C35_no_panic_release (s : St) (hp : s.profile = .release) :
-    (∀ a, (createPart s a).2 ≠ .panic) ∧ (∀ ph a, (createPub s ph a).2 ≠ .panic) ∧
-    (∀ ph a, (createSub s ph a).2 ≠ .panic) ∧ (∀ ph n k, (createTopic s ph n k).2 ≠ .panic) ∧
-    (∀ r n, (createCft s r n).2 ≠ .panic) ∧ (∀ r t m c, (createWriter s r t m c).2 ≠ .panic) ∧
-    (∀ r t c, (createReader s r t c).2 ≠ .panic) := by
-  refine ⟨?_, ?_, ?_, ?_, ?_, ?_, ?_⟩
-  · intro a; unfold createPart; simp
-  · intro ph a
-    unfold createPub
-    split
-    · simp
-    · simp [hp]
-  · intro ph a
-    unfold createSub
-    split
-    · simp
-    · simp [hp]
-  · intro ph n k
-    unfold createTopic
-    split
-    · simp
-    · split
-      · simp
-      · split
-        · simp
-        · simp [hp]
-  · intro r n
-    unfold createCft
-    split
-    · simp
-    · split
-      · simp
-      · simp [hp]
-  · intro r t m c
-    unfold createWriter
-    split
-    · simp
-    · split
-      · simp
-      · split
-        · simp
-        · simp only [hp]
-          split
-          · rename_i h; simp at h
-          · split <;> simp
-  · intro r t c
-    unfold createReader
-    split
-    · simp
-    · simp only [hp]
-      split
-      · simp
-      · split
-        · simp
-        · split
-          · simp
-          · simp
+/-- C35 (no panic at all): NO history of model operations on a fresh factory ever panics or kills the worker —
+    writer instance calls included: their `expect("Writer topic must exist")` is unreachable because in every reachable
+    state every writer's topic exists (`top_run`; needs the `delete_topic` precondition, i.e. C36) -/
+theorem C35_never_panics (pr : Profile) (ops : List Op) :
+    (run (St.init pr) ops).dead = false ∧ ∀ r ∈ outs (St.init pr) ops, r ≠ .panic := by
+  suffices h : ∀ (l : List Op) (s : St), s.dead = false → TopInv s →
+      (run s l).dead = false ∧ ∀ r ∈ outs s l, r ≠ .panic by
+    exact h ops (St.init pr) rfl (top_init pr)
+  intro l
+  induction l with
+  | nil => intro s hd _; exact ⟨hd, by simp [outs]⟩
+  | cons op l ih =>
+    intro s hd ht
+    have hs : (step s op).2 ≠ .panic ∧ (step s op).1.dead = s.dead := by
+      cases hop : isTreeOp op with
+      | true => exact C35_no_panic s op hop
+      | false =>
+        cases op <;> simp [isTreeOp] at hop
+        rename_i w o
+        exact instOp_no_panic ht w o
+    have hstep : stepD s op = step s op := by unfold stepD; simp [hd]
+    have := ih (step s op).1 (by rw [hs.2]; exact hd) (top_step ht op)
+    refine ⟨by show (run (stepD s op).1 l).dead = false; rw [hstep]; exact this.1, ?_⟩
+    intro r hr'
+    simp only [outs, List.mem_cons] at hr'
+    rcases hr' with h | h
+    · rw [h, hstep]; exact hs.1
+    · rw [hstep] at h; exact this.2 r h
 
-/-! ### as-is counter-examples (D40) -/
+/-- C35 (exhausted counter): a creation whose counter holds the last value of its field is refused with
+    OutOfResources and changes NOTHING (publisher shown; the other five kinds have the same shape) -/
+theorem C35_exhausted_refused (s : St) (ph : Nat) (a : Bool) (p : Part) (hp : findPart s ph = some p)
+    (hr : s.pubEver p.uid = 255) : createPub s ph a = (s, .err .outOfResources) := by
+  unfold createPub
+  rw [hp]
+  simp [hr, overflows, U8]
+
+/-! ### regression witnesses: the code before fixes/D40.patch (`Model/TreeOld.lean`) -/
 
 /-- one participant, then `n` publishers -/
 def manyPubs (n : Nat) : List Op := .createPart true :: List.replicate n (.createPub 0 true)
 
-/-- debug profile: the 256th `create_publisher` of a participant panics the worker (255 succeed) -/
+/-- before the patch, debug profile: the 256th `create_publisher` of a participant panics the worker (255 succeed) -/
 theorem C35_no_panic_counterexample :
-    (outs (St.init .debug) (manyPubs 256)).getLast? = some .panic ∧
-    (run (St.init .debug) (manyPubs 256)).dead = true ∧
-    (run (St.init .debug) (manyPubs 255)).dead = false := by decide +kernel
+    (outsOld (St.init .debug) (manyPubs 256)).getLast? = some .panic ∧
+    (runOld (St.init .debug) (manyPubs 256)).dead = true ∧
+    (runOld (St.init .debug) (manyPubs 255)).dead = false := by decide +kernel
 
-/-- release profile: 257 publishers are created without any error, all 257 are alive, and the 257th has the
-    handle of the first (entries 1 and 257 of the handle list; entry 0 is the participant) -/
+/-- before the patch, release profile: 257 publishers are created without any error, all 257 are alive, and the
+    257th has the handle of the first (entries 1 and 257 of the handle list; entry 0 is the participant) -/
 theorem C35_unique_counterexample :
-    let s := run (St.init .release) (manyPubs 257)
+    let s := runOld (St.init .release) (manyPubs 257)
     s.dead = false ∧ s.pubs.length = 257 ∧ (allHandles s)[1]? = (allHandles s)[257]? ∧
     (allHandles s)[1]?.isSome = true := by
   decide +kernel
 
-/-- release profile, with deletions in between: one long-lived publisher, 255 create+delete cycles, and the next
-    publisher collides with the long-lived one although only two publishers are alive -/
+/-- before the patch, release profile, with deletions in between: one long-lived publisher, 255 create+delete cycles,
+    and the next publisher collides with the long-lived one although only two publishers are alive -/
 def churn (n : Nat) : List Op :=
   (List.range n).flatMap (fun i => [Op.createPub 0 true, Op.deletePub 0 { ph := 0, b := (i + 1) % 256 }])
 
 theorem C35_unique_churn_counterexample :
-    let s := run (St.init .release) ([.createPart true, .createPub 0 true] ++ churn 255 ++ [.createPub 0 true])
+    let s := runOld (St.init .release) ([.createPart true, .createPub 0 true] ++ churn 255 ++ [.createPub 0 true])
     s.pubs.length = 2 ∧ ¬ (allHandles s).Nodup := by decide +kernel
+
+/-- the same histories on the PATCHED code: the 256th publisher is refused with OutOfResources, nobody dies, and
+    the churn history ends with ONE live publisher (the refused creation created nothing) -/
+theorem C35_fixed_regression :
+    (outs (St.init .debug) (manyPubs 256)).getLast? = some (.err .outOfResources) ∧
+    (run (St.init .debug) (manyPubs 256)).dead = false ∧
+    (run (St.init .release) (manyPubs 257)).pubs.length = 255 ∧
+    (run (St.init .release) ([.createPart true, .createPub 0 true] ++ churn 255 ++ [.createPub 0 true])).pubs.length = 1 := by
+  decide +kernel
 
 /-! ### non-vacuity -/
 
-/-- the hypotheses of the partial theorems are met by a non-trivial history: two participants, publishers,
-    subscribers, topics, a writer and a reader, deletions in between; every handle is distinct -/
+/-- a non-trivial history: two participants, publishers, subscribers, topics, a writer and a reader, deletions in
+    between: nine live entities, all handles distinct by `C35_unique` -/
 example :
     let ops : List Op := [.createPart true, .createPart true, .createPub 0 true, .createPub 1 true, .createSub 0 true,
       .createTopic 0 "A" true, .createTopic 1 "A" false, .createWriter { ph := 0, b := 0 } "A" none true,
       .createReader { ph := 0, b := 0 } "A" true, .deletePub 1 { ph := 1, b := 0 }, .createPub 1 true]
-    let s := run (St.init .debug) ops
-    (allHandles s).length = 9 ∧ RailFree s 1 ∧ s.dead = false ∧ (∀ op ∈ ops, isTreeOp op = true) := by
-  refine ⟨by decide +kernel, ?_, by decide +kernel, by decide⟩
-  intro u
-  by_cases h0 : u = 0
-  · subst h0; decide +kernel
-  · by_cases h1 : u = 1
-    · subst h1; decide +kernel
-    · simp [run, stepD, step, St.init, createPart, createPub, createSub, createTopic, createWriter, createReader,
-        deletePub, findPart, findPub, findSub, findTopic, findCft, isPartH, isPubH, isSubH, isTopicN, overflows, U8, U16, U32, setTo,
-        zeroMap, isBuiltinName, builtinTopicNames, writerOfPub, h0, h1]
+    (allHandles (run (St.init .debug) ops)).length = 9 ∧ (∀ op ∈ ops, isTreeOp op = true) := by
+  refine ⟨by decide +kernel, by decide⟩
+
+/-- the hypothesis of `C35_exhausted_refused` is reachable: after 255 publishers the counter is at its last value -/
+example : (run (St.init .debug) (manyPubs 255)).pubEver 0 = 255 ∧
+    findPart (run (St.init .debug) (manyPubs 255)) 0 = some { uid := 0, enabled := true, autoenable := true } := by
+  decide +kernel
 
 end DustVerif.Tree
